@@ -8,8 +8,27 @@ import (
 	"testing"
 	"time"
 
+	"github.com/jonboulle/clockwork"
+
 	"github.com/honeycombio/refinery/generics"
 )
+
+// hookClock is the clock given to the set/map: the bubble clock, whose next
+// Now() can be made to run something first. A lookup reads the clock between
+// finding an entry and judging it; that read is the seam for "a refresh of the
+// same element lands in the middle of a lookup".
+type hookClock struct {
+	clockwork.Clock
+	hook func()
+}
+
+func (c *hookClock) Now() time.Time {
+	if h := c.hook; h != nil {
+		c.hook = nil
+		h()
+	}
+	return c.Clock.Now()
+}
 
 // C32: TTL sets and maps agree on membership at every instant.
 //
@@ -25,7 +44,7 @@ func init() {
 	Register(&Check{
 		ID: "C32", World: "E/ttl",
 		Gen: genTTL, Run: runTTL, Simplify: simplifyTTL,
-		OwnProbes: []string{"query_at_expiry_instant", "query_after_expiry", "readd_before_expiry"},
+		OwnProbes: []string{"query_at_expiry_instant", "query_after_expiry", "readd_before_expiry", "refresh_landed_inside_lookup", "burst_expired"},
 		Real:      []string{"generics.SetWithTTL", "generics.MapWithTTL"},
 		Stub:      []string{"clock: testing/synctest bubble clock"},
 	})
@@ -43,6 +62,11 @@ func genTTL(r *Rng, tier string, p *Plan) {
 	}
 	now := int64(0)
 	exp := map[string]int64{}
+	if r.Bool(0.1) {
+		// many entries that expire together: more than any batch size a clean-up
+		// pass might have
+		p.Add(Op{K: "burst", N: int64(PickOf(r, 100, 1025, 1500, 3000)), At: now})
+	}
 	for i := 0; i < n; i++ {
 		switch r.Intn(10) {
 		case 0, 1, 2, 3:
@@ -53,6 +77,11 @@ func genTTL(r *Rng, tier string, p *Plan) {
 			it := PickOf(r, ttlItems...)
 			p.Add(Op{K: "rm", S: it, At: now})
 			delete(exp, it)
+		case 5:
+			// a lookup of an element with a refresh of it landing in the middle of the lookup
+			it := PickOf(r, ttlItems...)
+			p.Add(Op{K: "lookup_during_add", S: it, At: now})
+			exp[it] = now + ttl
 		default:
 			// advance: land exactly on an expiry, just before/after, or random
 			var targets []int64
@@ -139,12 +168,18 @@ func runTTL(t *testing.T, p *Plan) *Outcome {
 		ttl := time.Duration(p.N["ttl_us"]) * time.Microsecond
 		var sut ttlSUT
 		site := "generics.SetWithTTL"
+		clk := &hookClock{Clock: clockwork.NewRealClock()}
 		if p.On("map") {
-			sut = mapSUT{generics.NewMapWithTTL[string, string](ttl, nil)}
+			m := generics.NewMapWithTTL[string, string](ttl, nil)
+			m.Clock = clk
+			sut = mapSUT{m}
 			site = "generics.MapWithTTL"
 		} else {
-			sut = setSUT{generics.NewSetWithTTL[string](ttl)}
+			st := generics.NewSetWithTTL[string](ttl)
+			st.Clock = clk
+			sut = setSUT{st}
 		}
+		burst := 0
 		start := time.Now()
 		exp := map[string]time.Time{}
 		check := func(where string) {
@@ -175,6 +210,38 @@ func runTTL(t *testing.T, p *Plan) *Outcome {
 				inMem[k] = true
 			}
 			out.Logf("%s t=%v members=%v len=%d contains=%v", where, now.Sub(start), mem, ln, fmtSet(cont))
+			// the burst entries all expire together: all listed or none
+			nb := 0
+			var rest []string
+			for _, k := range mem {
+				if len(k) > 1 && k[0] == '#' {
+					nb++
+				} else {
+					rest = append(rest, k)
+				}
+			}
+			if burst > 0 {
+				be := exp["#0"]
+				want := -1
+				switch {
+				case now.Before(be):
+					want = burst
+				case now.After(be):
+					want = 0
+					out.Probe("burst_expired")
+				}
+				if want >= 0 && nb != want {
+					out.Violate("C32", "queries_disagree", site, "%s at t=%v: %d entries were added together and expire at t=%v, the listing shows %d of them", where, now.Sub(start), burst, be.Sub(start), nb)
+				}
+				if want >= 0 && ln != want+len(rest) {
+					out.Violate("C32", "queries_disagree", site, "%s at t=%v: Length()=%d but %d of the entries added together should be present plus %v", where, now.Sub(start), ln, want, rest)
+				}
+				if c := sut.contains("#0"); want >= 0 && c != (want > 0) {
+					out.Violate("C32", "queries_disagree", site, "%s at t=%v: membership test for one of the entries added together says %v, expected %v", where, now.Sub(start), c, want > 0)
+				}
+			}
+			mem = rest
+			ln -= nb
 			if ln != len(mem) {
 				out.Violate("C32", "queries_disagree", site, "%s at t=%v: Length()=%d but Members()=%v", where, now.Sub(start), ln, mem)
 			}
@@ -213,6 +280,33 @@ func runTTL(t *testing.T, p *Plan) *Outcome {
 					out.Probe("readd_before_expiry")
 				}
 				sut.add(op.S)
+				exp[op.S] = time.Now().Add(ttl)
+			case "burst":
+				burst = int(op.N)
+				for i := 0; i < burst; i++ {
+					sut.add(fmt.Sprintf("#%d", i))
+				}
+				exp["#0"] = time.Now().Add(ttl)
+			case "lookup_during_add":
+				// the refresh runs in a goroutine of its own, started from inside the
+				// lookup's clock read; it completes there, or waits for the lock the
+				// lookup holds and completes right after
+				done := make(chan struct{})
+				clk.hook = func() {
+					gid := make(chan int64, 1)
+					go func() { gid <- goid(); sut.add(op.S); close(done) }()
+					awaitGoroutine(<-gid, done)
+				}
+				sut.contains(op.S) // either answer is right for a lookup overlapping a refresh
+				if clk.hook != nil {
+					// the lookup did not read the clock (no entry): the refresh follows it
+					clk.hook = nil
+					sut.add(op.S)
+					close(done)
+				} else {
+					out.Probe("refresh_landed_inside_lookup")
+				}
+				<-done
 				exp[op.S] = time.Now().Add(ttl)
 			case "rm":
 				sut.rm(op.S)
